@@ -361,7 +361,7 @@ class Interp:
                     if helper:
                         self.__dict__.setdefault("_nofold", set()).add(id(e))
                 mutator = isinstance(e.func, ast.Attribute) and e.func.attr in _MUTATORS  # must act on the environment's own object
-                if not helper and not mutator and not self._mentions_obj(e, env):
+                if not helper and not mutator and not self._mentions_obj(e, env) and not any(isinstance(x, ast.NamedExpr) for x in ast.walk(e)):
                     v0 = self.ctx.folder.eval(e, self.module, env=env)
                     if isinstance(v0, frozenset) and isinstance(e.func, ast.Name) and e.func.id == "set":
                         return set(v0)  # a fresh mutable set (the folder's constants are immutable)
@@ -389,6 +389,14 @@ class Interp:
                     else:
                         pre.pop(i, None)
         return self._ev(e, env, depth)
+
+    def _holds_pyfunc(self, f, env, depth):
+        """`a.b.c` (no calls inside) names a witness callable stored on a witness object."""
+        try:
+            base = self.ev(f.value, env, depth)
+        except (_Unknown, AttributeError):
+            return False
+        return isinstance(base, Obj) and isinstance(base.__dict__.get(f.attr), PyFunc)
 
     def _factory_class(self, fi):
         """A class factory: a module-level function whose body defines one class and returns it (Struct, Array, StructTag, ...)."""
@@ -685,6 +693,14 @@ class Interp:
         return UNKNOWN
 
     def _ev(self, e, env, depth=0):
+        if isinstance(e, ast.NamedExpr) and isinstance(e.target, ast.Name):
+            # `(name := value)`: bound in the function's scope (past comprehension scopes), the value is the result
+            v_ = self.ev(e.value, env, depth)
+            scope = env
+            while isinstance(scope, _ChildEnv):
+                scope = scope.parent
+            scope[e.target.id] = v_
+            return v_
         if isinstance(e, ast.Attribute) and isinstance(e.value, ast.Name) and isinstance(env.get(e.value.id), Obj):
             return self._obj_attr(env[e.value.id], e.attr, depth)
         if isinstance(e, ast.Attribute) and isinstance(e.value, ast.Name) and isinstance(env.get(e.value.id), Instance) and e.attr not in ("decode", "encode"):
@@ -703,8 +719,8 @@ class Interp:
             recv = self.ctx.folder.eval(e.value, self.module, env=env)
             if isinstance(recv, ClassRef):
                 return Bound(recv.ci, e.attr)
-        if self._mentions_obj(e, env) or id(e) in self.__dict__.get("_nofold", ()):
-            v = UNKNOWN
+        if self._mentions_obj(e, env) or id(e) in self.__dict__.get("_nofold", ()) or any(isinstance(x, ast.NamedExpr) for x in ast.walk(e)):
+            v = UNKNOWN  # (an assignment expression binds in this environment: never left to the constant folder)
         elif self.hook is not None and isinstance(e, (ast.List, ast.Tuple, ast.Dict, ast.Set, ast.ListComp, ast.GeneratorExp, ast.SetComp, ast.DictComp, ast.IfExp, ast.BinOp, ast.BoolOp)) and any(isinstance(x, ast.Call) for x in ast.walk(e)):
             v = UNKNOWN  # calls inside a display / comprehension / conditional are evaluated one by one so that the rule's witnesses see them
         else:
@@ -790,8 +806,8 @@ class Interp:
             fv = UNKNOWN
             if isinstance(e.func, ast.Name) and isinstance(env.get(e.func.id), (BoundMethod, PyFunc)):
                 fv = env[e.func.id]
-            elif isinstance(e.func, (ast.Call, ast.Subscript)) or (isinstance(e.func, ast.Attribute) and isinstance(e.func.value, ast.Name) and isinstance(env.get(e.func.value.id), Obj)
-                                                                   and isinstance(env[e.func.value.id].__dict__.get(e.func.attr), PyFunc)):
+            elif isinstance(e.func, (ast.Call, ast.Subscript)) or (isinstance(e.func, ast.Attribute) and self._mentions_obj(e.func.value, env) and not any(isinstance(x, ast.Call) for x in ast.walk(e.func.value))
+                                                                   and self._holds_pyfunc(e.func, env, depth)):
                 try:
                     fv = self.ev(e.func, env, depth)
                 except _Unknown:
@@ -1005,7 +1021,7 @@ class Interp:
                 if not isinstance(seq, (list, tuple, str, bytes, range)) or len(seq) > 4096:
                     raise _Unknown("comprehension over a non-constant sequence")
                 for item in seq:
-                    env2 = dict(env_)
+                    env2 = _ChildEnv(env_)  # (the comprehension's own scope: its targets are local, everything else is the function's)
                     self.store(g_.target, item, env2, depth)
                     if all(self.ev(c_, env2, depth) for c_ in g_.ifs):
                         rec(gens[1:], env2)
@@ -1296,6 +1312,12 @@ class Interp:
             if isinstance(st, ast.Expr):
                 if isinstance(st.value, ast.Constant):
                     return
+                if isinstance(st.value, ast.Yield) and self.__dict__.get("_cm_stack"):
+                    # the `yield` of a generator-based context manager: the body of the `with` statement runs here, so that what it
+                    # raises meets the manager's own try / except / finally
+                    cb = self._cm_stack.pop()
+                    cb(self.ev(st.value.value, env, depth) if st.value.value is not None else None)
+                    return
                 if isinstance(st.value, ast.Yield) and getattr(self, "_yields", None) is not None:
                     self._yields.append(self.ev(st.value.value, env, depth) if st.value.value is not None else None)
                     if len(self._yields) >= self._yield_limit:
@@ -1366,6 +1388,50 @@ class Interp:
                 if st.exc is None and getattr(self, "_handling", None):
                     raise _Raise(self._handling[-1])
                 raise _Raise(exc_name(st.exc) or "?")
+            elif isinstance(st, ast.With) and len(st.items) == 1 and isinstance(st.items[0].context_expr, ast.Call):
+                # `with manager(args): body` for a generator-based context manager of the package (@contextmanager): the manager's
+                # function is folded and the body is run at its `yield`
+                item = st.items[0]
+                call = item.context_expr
+                ref = self.ctx.folder.eval(call.func, self.module) if isinstance(call.func, (ast.Name, ast.Attribute)) and not self._mentions_obj(call.func, env) else UNKNOWN
+                node = getattr(ref, "node", None) if isinstance(ref, FuncRef) else None
+                if not (isinstance(node, ast.FunctionDef) and any((getattr(d, "id", None) or getattr(d, "attr", None)) == "contextmanager" for d in node.decorator_list)):
+                    raise _Unknown(f"with statement over {ast.unparse(call.func)}")
+                args, kwargs = self._call_args(call, env, depth)
+                params = [a.arg for a in node.args.args]
+                if len(args) > len(params):
+                    raise TypeError("too many positional arguments")
+                env2 = dict(zip(params, args))
+                env2.update(kwargs)
+                other = self if ref.module is self.module else Interp(self.ctx, ref.module, self.hook, self.max_depth, self.cls)
+                for p_, d_ in zip(params[len(params) - len(node.args.defaults):], node.args.defaults):
+                    if p_ not in env2:
+                        env2[p_] = other.ev(d_, {}, depth)
+                ran = []
+
+                leaving = []
+
+                def body(value, ran=ran):
+                    ran.append(1)
+                    if item.optional_vars is not None:
+                        self.store(item.optional_vars, value, env, depth)
+                    try:
+                        self.block(st.body, env, depth)
+                    except (_Return, _Break, _Continue) as ctl:
+                        # return / break / continue inside the body: the manager is left normally (it resumes after its yield), then
+                        # the statement takes effect in the enclosing function
+                        leaving.append(ctl)
+
+                other.__dict__.setdefault("_cm_stack", []).append(body)
+                n0 = len(other._cm_stack)
+                try:
+                    other.call(node, env2, depth + 1)
+                finally:
+                    del other._cm_stack[n0 - 1:]
+                if not ran:
+                    raise _Raise("RuntimeError")  # generator didn't yield
+                if leaving:
+                    raise leaving[0]
             elif isinstance(st, ast.Break):
                 raise _Break()
             elif isinstance(st, ast.Continue):
